@@ -186,6 +186,7 @@ def _oracle_body(case, rec, cols, df, colset, labels, h, pairwise, cap, eff_cap,
         req = required_pairs(cols, pairwise, h, label)
         allowed = allowed_pairs(cols, pairwise, h, label)
         dups = len([c for c in cols if c != label]) if pairwise else 0
+        held = []          # (row list object as returned, snapshot of its contents at return time) of every batch of this run
         for bi in range(nb):
             if bi == 1 and grow:
                 # a later batch of the same run may be wider (value-dependent constructed columns): same args object, more pairs
@@ -207,6 +208,12 @@ def _oracle_body(case, rec, cols, df, colset, labels, h, pairwise, cap, eff_cap,
             else:
                 out = mixed_rank_graph(df, args, stubs.InlinePool(ncpus=int(case.get('ncpus', 1))), stubs.PBar()).triplet_scores
             where = f'label {label!r} (#{li + 1} of {len(labels)}), batch {bi + 1} of {nb}: '
+            held.append((out, [tuple(r) for r in out]))
+            for hi, (obj, snap) in enumerate(held[:-1]):
+                # a caller that keeps the rows of an earlier batch still holds THAT batch's rows after later batches were ranked
+                if [tuple(r) for r in obj] != snap:
+                    raise Violation(where + f'the row list returned for batch {hi + 1} changed after later batches were ranked '
+                                    f'({len(snap)} rows then, {len(obj)} rows now)', kind='C06/foreign-column')
             for a, b, s in out:
                 if a not in colset or b not in colset:
                     raise Violation(where + f'row mentions a column outside the feature space: {(a, b)}', kind='C06/foreign-column')
@@ -246,10 +253,76 @@ def _oracle_body(case, rec, cols, df, colset, labels, h, pairwise, cap, eff_cap,
                                     f'{sorted(missing)[:5]} ({len(missing)} of {len(req)})', kind='C06/missing-pair')
 
 
+@st.composite
+def stream_case(draw):
+    """A small csv file streamed in 2-4 mini-batches whose feature spaces differ (an exploded multi-value column with batch-specific
+    tokens): the rows handed out for a batch are that batch's rows, also after the later batches were processed."""
+    return {'stream': {'m': draw(st.integers(4, 12)), 'batches': draw(st.integers(2, 4)), 'seed': draw(st.integers(0, 2**32 - 1)),
+                       'pairwise': draw(st.booleans())}}
+
+
+def oracle_stream(case, rec):
+    import csv as _csv
+    import os as _os
+    import shutil as _shutil
+    import tempfile as _tempfile
+
+    from outrank import core_ranking as cr
+    g = case['stream']
+    m, nb = int(g['m']), int(g['batches'])
+    rng = np.random.Generator(np.random.PCG64(int(g['seed'])))
+    tmp = _tempfile.mkdtemp(prefix='c06s-')
+    old = _os.getcwd()
+    orig = cr.compute_batch_ranking
+    held = []
+
+    def spy(*a, **k):
+        res = orig(*a, **k)
+        rows = res[0].triplet_scores
+        held.append((rows, [tuple(r) for r in rows]))
+        return res
+    try:
+        _os.chdir(tmp)
+        with open('data.csv', 'w', newline='') as fh:
+            w = _csv.writer(fh, lineterminator='\n')
+            w.writerow(['f0', 'tags', 'label'])
+            for b in range(nb):
+                for i in range(m):
+                    w.writerow([f'v{int(rng.integers(0, 3))}', f'common-t{b}' if i % 2 else 'common', str(int(rng.integers(0, 2)))])
+        args = stubs.make_args(heuristic='MI-numba-randomized', minibatch_size=m, subsampling=1, data_source='csv-raw',
+                               target_ranking_only='False' if g['pairwise'] else 'True', explode_multivalue_features='tags')
+        stubs.reset_globals()
+        cr.compute_batch_ranking = spy
+        cr.estimate_importances_minibatches(_os.path.join(tmp, 'data.csv'), ['f0', 'tags', 'label'], None, set(), args=args,
+                                            data_encoding='utf-8', cpu_pool=stubs.InlinePool(), delimiter=',', logger=_QuietLogger())
+    finally:
+        cr.compute_batch_ranking = orig
+        _os.chdir(old)
+        _shutil.rmtree(tmp, ignore_errors=True)
+    rec.nt(len(held) >= 2, key=case)
+    rec.cls('streamed-batches=%d' % len(held))
+    for bi, (obj, snap) in enumerate(held):
+        now = [tuple(r) for r in obj]
+        if now != snap:
+            names = sorted({x for r in now for x in r[:2]} - {x for r in snap for x in r[:2]})
+            raise Violation(f'the rows returned for mini-batch {bi + 1} of {len(held)} changed after the later batches were processed: '
+                            f'{len(snap)} rows at return time, {len(now)} now; columns that were not in that batch: {names[:4]}',
+                            kind='C06/foreign-column')
+
+
+class _QuietLogger:
+    def info(self, *a, **k):
+        pass
+
+    warning = error = debug = info
+
+
 KINDS = ['C06/pairs', 'C06/long-batch', 'C06/foreign-column', 'C06/not-requested', 'C06/constant', 'C06/mirroring', 'C06/cap', 'C06/missing-pair']
 ORACLES = {k: oracle for k in KINDS}
+ORACLES['C06/stream-summaries'] = oracle_stream
 
 
 def run(ctx):
     drive(ctx, [Clause('C06/pairs', case_strategy, oracle, quick=1600, thorough=150000, quick_shards=8),
+                Clause('C06/stream-summaries', stream_case, oracle_stream, quick=12, thorough=600, quick_shards=4),
                 Clause('C06/long-batch', long_batch_case, oracle, quick=16, thorough=160, quick_shards=8, thorough_shards=16)])
